@@ -486,5 +486,51 @@ def r9_keyword_whitelist_complete(chk: Check) -> None:
             chk.ok("C01.R9", f"specs/openapi/parameters.py:{cname}", construct, f"{len(have)} keywords", f"specs/openapi/parameters.py:{classes[cname].lineno}")
 
 
+def r10_validity_filters_universal(chk: Check) -> None:
+    chk.rule("C01.R10", "QUANTIFIER(is_valid_path / is_valid_header / is_valid_query): the per-location filters accept a container only if EVERY entry can be sent (universal: a loop that returns False at the first bad entry and True at the end, `not any(...)`, `all(...)`) - an early `return True` inside the loop, or `any(...)` of the good case, accepts a container as soon as ONE entry is fine and lets surrogate pairs / non-latin-1 header values / `/` in a path segment through to the transport", floor=3)
+    P = chk.project
+    mod = P.module("openapi/generation/filters.py")
+    n = 0
+    for name in ("is_valid_path", "is_valid_header", "is_valid_query"):
+        fn = mod.functions.get(name)
+        if fn is None:
+            chk.undecided("C01.R10", f"openapi/generation/filters.py:{name}", "predicate", "function not found")
+            continue
+        n += 1
+        construct = f"{name}: every entry has to pass"
+        verdict: bool | None = None
+        why = ""
+        for r in walk_body(fn.node):
+            if not isinstance(r, ast.Return) or r.value is None:
+                continue
+            in_loop = any(isinstance(a, (ast.For, ast.While)) for a in ancestors(r) if a is not fn.node)
+            if in_loop and isinstance(r.value, ast.Constant):
+                if r.value.value is True:
+                    verdict, why = False, "`return True` inside the loop over the entries"
+                    break
+                if r.value.value is False and verdict is None:
+                    verdict, why = True, "early `return False`, `True` at the end"
+            elif not in_loop:
+                v = r.value
+                neg = False
+                while isinstance(v, ast.UnaryOp) and isinstance(v.op, ast.Not):
+                    v, neg = v.operand, not neg
+                if isinstance(v, ast.Call) and isinstance(v.func, ast.Name) and v.func.id in ("any", "all"):
+                    universal = (v.func.id == "all" and not neg) or (v.func.id == "any" and neg)
+                    if not universal:
+                        verdict, why = False, f"`{unparse(r.value, 40)}` is existential"
+                        break
+                    if verdict is None:
+                        verdict, why = True, f"{'not ' if neg else ''}{v.func.id}(...)"
+        if verdict is None:
+            chk.undecided("C01.R10", fn, construct, "neither a loop with early returns nor any()/all()", fn.loc())
+        elif verdict:
+            chk.ok("C01.R10", fn, construct, why, fn.loc())
+        else:
+            chk.violation("C01.R10", fn, construct, f"{why}: the container is accepted although other entries are unsendable - positive data with a lone surrogate / a non-latin-1 header value / `/` in a path parameter reaches serialization (errors instead of cases, or a request for another path)", fn.loc())
+    if n < 3:
+        chk.undecided("C01.R10", "<discovery>", f"sites={n}", "filters not found")
+
+
 def rules(tier: str) -> list:  # type: ignore[type-arg]
-    return [r1_generator_plumbing, r2_length_keywords, r2b_width_checked, r3_property_stripping, r3b_mode_selection, r4_path_location, r5_filters_only_narrow, r6_token_kinds_agree, r7_traversal_order, rfwd_forwarding, r8_forbid_each, r9_keyword_whitelist_complete]
+    return [r1_generator_plumbing, r2_length_keywords, r2b_width_checked, r3_property_stripping, r3b_mode_selection, r4_path_location, r5_filters_only_narrow, r6_token_kinds_agree, r7_traversal_order, rfwd_forwarding, r8_forbid_each, r9_keyword_whitelist_complete, r10_validity_filters_universal]
